@@ -11,33 +11,33 @@ CONFIGS_THOROUGH = ["K1", "K2"]
 # key -> (max count, reason).  Reasons are text, not machine-checked; a new construct, another
 # callee or another constant operand is a new key and is reported.
 AUDITED = {
-    "mpd_client::responses::song::SongBuilder::into_song|panic:core::panicking::panic": (
+    "SongBuilder::into_song|panic:panic": (
         1, "assert!(!url.is_empty()): into_song is reached only from handle_song_field (field() "
            "dispatches there only when url is non-empty) and from finish() behind the same test"),
-    "mpd_client::responses::sticker::parse_sticker_value|call:alloc::string::String::truncate": (
+    "parse_sticker_value|call:String::truncate": (
         1, "truncate(key.len()) where key is the prefix returned by split_once('=') on the same "
            "string: a char boundary not beyond the end"),
-    "<mpd_client::responses::list::GroupedListValuesIter<'a, N> as core::iter::traits::iterator::Iterator>::next|assert:bounds(N,_)": (
+    "<GroupedListValuesIter<'a, N> as Iterator>::next|assert:bounds(N,_)": (
         1, "index obtained from position() over grouping_tags: [Tag; N]; grouping_values has the "
            "same length N by type"),
-    "<mpd_protocol::response::FramesRef<'a> as core::iter::traits::iterator::Iterator>::size_hint|assert:overflow:Add(_,_)": (
+    "<FramesRef<'a> as Iterator>::size_hint|assert:overflow:Add(_,_)": (
         1, "slice::Iter::len() <= isize::MAX, adding 0 or 1 cannot overflow usize"),
-    "<mpd_protocol::response::Frames as core::iter::traits::iterator::Iterator>::size_hint|assert:overflow:Add(_,_)": (
+    "<Frames as Iterator>::size_hint|assert:overflow:Add(_,_)": (
         1, "vec::IntoIter::len() <= isize::MAX, adding 0 or 1 cannot overflow usize"),
-    "mpd_protocol::response::Response::into_single_frame|call:core::option::Option::unwrap": (
+    "Response::into_single_frame|call:Option::unwrap": (
         1, "a Response is only built by the response builder / Response::empty with at least one "
            "frame or with an error, so its iterator yields at least one item (construction sites are "
            "checked by C03.machine)"),
     # capacity hints computed from the length of data that is already in memory
-    "mpd_client::responses::count::Count::from_frame_grouped|call:alloc::vec::Vec::with_capacity": (
+    "Count::from_frame_grouped|call:Vec::with_capacity": (
         1, "capacity = number of fields already held in the frame / 3"),
-    "mpd_client::responses::playlist::Playlist::parse_frame|call:alloc::vec::Vec::with_capacity": (
+    "Playlist::parse_frame|call:Vec::with_capacity": (
         1, "capacity = number of fields already held in the frame / 2"),
-    "<mpd_client::commands::definitions::GetEnabledTagTypes as mpd_client::commands::Command>::response|call:alloc::vec::Vec::with_capacity": (
+    "<GetEnabledTagTypes as Command>::response|call:Vec::with_capacity": (
         1, "capacity = number of fields already held in the frame"),
-    "<mpd_client::commands::definitions::ListChannels as mpd_client::commands::Command>::response|call:alloc::vec::Vec::with_capacity": (
+    "<ListChannels as Command>::response|call:Vec::with_capacity": (
         1, "capacity = number of fields already held in the frame"),
-    "<alloc::vec::Vec<C> as mpd_client::commands::command_list::CommandList>::responses|call:alloc::vec::Vec::with_capacity": (
+    "<Vec<C> as CommandList>::responses|call:Vec::with_capacity": (
         1, "capacity = number of commands the caller holds in memory"),
 }
 
